@@ -287,6 +287,8 @@ type mouseCase struct {
 	M1003, M1006 bool   `json:"-"`
 	Modes        string `json:"modes"`
 	Paste        bool   `json:"paste_mode"`
+	AltScroll    bool   `json:"alt_scroll,omitempty"` // 1007
+	AltScreen    bool   `json:"alt_screen,omitempty"` // 1049
 	Written      string `json:"written,omitempty"`
 }
 
@@ -328,6 +330,24 @@ func runMouse(w *harness.W, s spec) {
 			}
 		}
 	}
+	// alternate scroll (1007): without mouse tracking, wheel motion becomes
+	// cursor keys, but only on the alternate screen (xterm)
+	for flags := 0; flags < 4; flags++ {
+		for _, btn := range buttons {
+			for _, typ := range []int{0, 2, 3} {
+				if (btn == 3 && typ != 3) || (btn >= 64 && btn < 128 && typ != 0) {
+					continue
+				}
+				k++
+				if k%s.Of != s.Part {
+					continue
+				}
+				mc := mouseCase{Button: btn, Type: typ, Col: 5, Row: 7, AltScroll: flags&1 != 0, AltScreen: flags&2 != 0}
+				mc.Modes = fmt.Sprintf("no tracking, 1007=%v 1049=%v", mc.AltScroll, mc.AltScreen)
+				cases = append(cases, mc)
+			}
+		}
+	}
 	const group = 50
 	for off := 0; off < len(cases); off += group {
 		end := off + group
@@ -337,7 +357,7 @@ func runMouse(w *harness.W, s spec) {
 		var raw [][]byte
 		for i := off; i < end; i++ {
 			mc := &cases[i]
-			setModes(m, onoff(1000, mc.M1000), onoff(1002, mc.M1002), onoff(1003, mc.M1003), onoff(1006, mc.M1006), onoff(1049, false), onoff(1007, false))
+			setModes(m, onoff(1000, mc.M1000), onoff(1002, mc.M1002), onoff(1003, mc.M1003), onoff(1006, mc.M1006), onoff(1049, mc.AltScreen), onoff(1007, mc.AltScroll))
 			ev := vaxis.Mouse{Button: vaxis.MouseButton(mc.Button), Col: mc.Col, Row: mc.Row, EventType: vaxis.EventType(mc.Type)}
 			val, stack, panicked := harness.Recover(func() { m.Update(ev) })
 			if panicked {
@@ -378,6 +398,19 @@ func runMouse(w *harness.W, s spec) {
 			}
 			wrote := len(raw[i-off]) > 0
 			typName := map[int]string{0: "press", 2: "release", 3: "motion"}[mc.Type]
+			if !tracking && (mc.AltScroll || mc.AltScreen) {
+				w.Count("alt_scroll_cases", 1)
+				wheel := mc.Button == 64 || mc.Button == 65
+				want := mc.AltScroll && mc.AltScreen && wheel
+				if wrote && !want {
+					w.Violation("mouse:alt-scroll:written-but-not-enabled", fmt.Sprintf("%s of button %d written as %s: no mouse tracking, %s", typName, mc.Button, mc.Written, mc.Modes), mc, mc.Written, "nothing (alternate scroll applies to wheel motion on the alternate screen only)")
+				} else if !wrote && want {
+					w.Violation("mouse:alt-scroll:not-written", fmt.Sprintf("wheel button %d produced nothing although the child enabled alternate scroll on the alternate screen", mc.Button), mc, "nothing", "cursor keys")
+				} else if wrote && !strings.Contains(string(raw[i-off]), map[int]string{64: "A", 65: "B"}[mc.Button]) {
+					w.Violation("mouse:alt-scroll:wrong-keys", fmt.Sprintf("wheel button %d written as %s", mc.Button, mc.Written), mc, mc.Written, "cursor up for wheel up, cursor down for wheel down")
+				}
+				continue
+			}
 			if wrote && !enabled {
 				w.Violation("mouse:written-but-not-enabled:"+typName+":"+modeKey(mc), fmt.Sprintf("%s of button %d written as %s although the child did not enable it (%s)", typName, mc.Button, mc.Written, mc.Modes), mc, mc.Written, "nothing")
 				continue
